@@ -162,6 +162,10 @@ def replay_cases(chk, th, sources, cases, fields, what):
             for j, st in enumerate(c["h"]):
                 exp = _norm_obs_spec(st["o"])
                 act = _norm_obs_impl(got[i][j])
+                # a frame's return address is set by EXEC; before that (-1 in the specification) the field is unconstrained
+                for fe, fa in zip(exp["stack"], act["stack"]):
+                    if fe["ra"] == -1:
+                        fa["ra"] = -1
                 bad = [f for f in fields if exp[f] != act[f]]
                 compared += 1
                 if bad:
